@@ -325,7 +325,8 @@ def ColRef.equals (v rhs : ColRef) : Bool :=
 def DerivedCol.matches (d : DerivedCol) (rhs : ColRef) : Bool :=
   match d.item with
   | .expr (.val (.col lhs)) =>
-    lhs.equals rhs || d.alias == rhs.name || (lhs.name == rhs.name && rhs.qual.isEmpty)
+    -- (an alias is an output name: only an unqualified reference can mean it)
+    lhs.equals rhs || (d.alias == rhs.name && rhs.qual.isEmpty) || (lhs.name == rhs.name && rhs.qual.isEmpty)
   | _ => false
 
 def DerivedCol.isColRef (d : DerivedCol) : Bool :=
